@@ -140,6 +140,25 @@ func c05Families(ls *sysListServer) []c05Family {
 			ls.Set(path, []byte(sb.String()))
 			wl := i%4 == 3
 			n := 0
+			if i%5 == 2 {
+				// A refresh pass in which some lists fail and others do not:
+				// one of the other two lists answers 404 or breaks in the
+				// body, the third gets new content.
+				broken, fresh := fmt.Sprintf("/l%d.txt", (i+1)%3), fmt.Sprintf("/l%d.txt", (i+2)%3)
+				if i%10 == 2 {
+					ls.Unset(broken)
+				} else {
+					ls.SetCut(broken, []byte(sb.String()+"||cut.verif.test^\n"), 40)
+				}
+				ls.Set(fresh, []byte(sb.String()+"||fresh.verif.test^\n"))
+				for _, w := range []bool{false, true} {
+					if s := c05Call(in, "POST", "/control/filtering/refresh", map[string]any{"whitelist": w}, 200, 400, 500); s != "" {
+						f = append(f, s)
+					}
+					n++
+				}
+				ls.Set(broken, []byte(sb.String()))
+			}
 			if s := c05Call(in, "POST", "/control/filtering/add_url", map[string]any{"name": "l", "url": ls.URL(path), "whitelist": wl}, 200, 400); s != "" {
 				f = append(f, s)
 			}
@@ -337,6 +356,10 @@ const c05DHCPConf = `dhcp:
 `
 
 var c05PanicRe = regexp.MustCompile(`(?m)^(panic: |fatal error: |\[fatal\]|unexpected signal)`)
+
+// c05RecoveredRe matches a panic that a goroutine of the server recovered from
+// (the request or worker it was running is lost all the same).
+var c05RecoveredRe = regexp.MustCompile(`(?m)(recovered from panic: .*|http: panic serving .*|panic encountered, exiting: .*)$`)
 
 func TestVerifC05(t *testing.T) {
 	rep := verifkit.New("C05", "system",
@@ -562,6 +585,14 @@ func c05Round(rep *verifkit.Report, round int, loadDur time.Duration) {
 			top = frames[0][1] + "." + frames[0][2]
 		}
 		rep.Violate("server-crash:"+top, "the server process panicked or died with a fatal error", map[string]any{"log": log[loc[0]:end]})
+	} else if loc = c05RecoveredRe.FindStringIndex(log); loc != nil {
+		end := min(loc[0]+6000, len(log))
+		frames := regexp.MustCompile(`AdGuardHome/internal/([\w/]+)\.([\w\.\(\)\*]+)\(`).FindAllStringSubmatch(log[loc[0]:end], 3)
+		top := "unknown"
+		if len(frames) > 0 {
+			top = frames[0][1] + "." + frames[0][2]
+		}
+		rep.Violate("panic-recovered:"+top, "a goroutine of the server panicked (recovered by a handler or worker wrapper): "+log[loc[0]:loc[1]], map[string]any{"log": log[loc[0]:end]})
 	} else if crashed && !rep.Violated() {
 		rep.Violate("server-exit", "the server process exited during the workload", map[string]any{"log_tail": sysTail(log, 6000)})
 	} else if !clean {
